@@ -48,8 +48,9 @@ impl ReactiveNode for RwLock<ArcAsyncDerivedInner> {
     }
 
     fn mark_subscribers_check(&self) {
-        let lock = self.read().or_poisoned();
-        for sub in (&lock.subscribers).into_iter() {
+        // Do not hold the lock while notifying (see `notify_subs`).
+        let subs = self.read().or_poisoned().subscribers.clone();
+        for sub in subs {
             sub.mark_check();
         }
     }
